@@ -600,10 +600,14 @@ def r_finalise(ctx):
     if not enc:
         return no_anchor("R-FINALISE", "compressing codec factories")
     n = 0
+    called = set(c for cs in ctx.callgraph().values() for c in cs)
+    reach_enc = set(p for p in ctx.facts.fns if ctx.reachable([p]) & set(enc))
     for f in ctx.user_fns():
         if f["path"] in enc:
             continue
-        if not any(c["fn"] in enc for c in calls(f["body"])):
+        if f["path"] in ctx.inlinable and f["path"] in called:
+            continue      # a private helper: judged in place inside its callers, where what happens after it returns is visible
+        if f["path"] not in reach_enc:
             continue
         fa = ctx.fa(f)
         for p in fa.paths:
